@@ -155,6 +155,10 @@ def discover():
     base = importlib.import_module("traffic_weaver.datasets._base")
     real = base.load_csv_dataset_from_remote
     sig = inspect.signature(real)
+    # every loader is asked in import-time library state: what a loader requests must be learnt from that loader
+    # alone, not from a history of 75 other loaders called before it in this very process (a memo shared between
+    # loaders would otherwise poison the world model - and the baseline - with the defect it should expose)
+    isolate.reset_library_state()
 
     def recorder(*args, **kwargs):
         raise _Found(sig.bind(*args, **kwargs).arguments)
@@ -173,6 +177,7 @@ def discover():
                 if not attr.startswith("fetch_") or not callable(fn) or getattr(fn, "__module__", None) != m.__name__:
                     continue
                 try:
+                    isolate.reset_library_state()
                     fn()
                 except _Found as f:
                     info = f.info
@@ -196,6 +201,7 @@ def discover():
     finally:
         for m, f in saved:
             m.load_csv_dataset_from_remote = f
+        isolate.reset_library_state()
     _DISCOVERY = found
     return found
 
